@@ -229,13 +229,14 @@ def run(ctx, impl_only=False):
             ex_paths, ex_types, ex_regex = [], [], []
             r = ctx.rng.random()
             allp = [p for (p, ks, v, via, ins) in locs if ks]
-            if r < 0.25 and allp:
+            combine = ctx.rng.random() < 0.3           # the exclusion options alone, and two or three of them in one call
+            if (r < 0.25 or (combine and ctx.rng.random() < 0.6)) and allp:
                 ex_paths = ctx.rng.sample(allp, min(len(allp), ctx.rng.randint(1, 2)))
-            elif r < 0.4:
+            if 0.25 <= r < 0.4 or (combine and ctx.rng.random() < 0.7):
                 ex_types = ctx.rng.sample([str, int, float, bool, list, tuple, dict, type(None)], ctx.rng.randint(1, 2))
-            elif r < 0.5 and allp:
+            if (0.4 <= r < 0.5 or (combine and ctx.rng.random() < 0.7)) and allp:
                 p = ctx.rng.choice(allp)
-                ex_regex = [ctx.rng.choice(['^' + re.escape(p) + '$', re.escape(p[4:]), r'\[\d+\]$', r"\['a"])]
+                ex_regex = [ctx.rng.choice(['^' + re.escape(p) + '$', re.escape(p[4:]), r'\[\d+\]$', r"\['a", r"^root\['nothing'\]"])]
             vb = ctx.rng.choice([1, 2])
             case = {'obj': repr(obj), 'item': repr(it), 'case_sensitive': cs, 'match_string': ms, 'use_regexp': ur, 'strict_checking': strict,
                     'exclude_paths': ex_paths, 'exclude_types': [t.__name__ for t in ex_types], 'exclude_regex_paths': ex_regex, 'verbose_level': vb}
